@@ -6,6 +6,7 @@ from rules import panics
 from rules.c17 import validated_bpb_fields
 
 SCOPES = {
+    'C01': re.compile(r'^<?fatfs::(dir|dir_entry|time)::'),
     'C02': re.compile(r'^(<fatfs::file::File as |fatfs::file::File::)'),
     'C05': re.compile(r'^(fatfs::fs::FileSystem::(alloc_cluster|free_cluster_chain|truncate_cluster_chain|recalc_free_clusters|'
                       r'stats)|fatfs::fs::FsInfoSector::|fatfs::table::(alloc_cluster|count_free_clusters|ClusterIterator::)|'
